@@ -61,10 +61,10 @@ PLANS = {
                "non-trivial: a scan that asked the cloud for capacity (with max_nodes below / above the cloud maximum, landing on the bound or not)",
                ["C04:request", "C04:request-on-bound", "C04:max_nodes-below-cloud-max", "C04:max_nodes-above-cloud-max"]),
     "C06": ctl(["updown", "all_scale"], ["updown", "updown@v3", "updown@v4", "conflict", "all_scale"],
-               [D("down", faults=0, dry=0), D("up", faults=0, dry=0, fine=True), D("mix", faults=0, dry=0, fine=True), D("down", faults=40, dry=0, nodes=8)],
-               [D("down", n=60, steps=100, procs=6, faults=0, dry=0), D("up", n=60, steps=100, procs=6, faults=0, dry=0, fine=True), D("mix", n=60, steps=100, procs=6, faults=0, dry=0, fine=True), D("down", n=60, steps=100, procs=6, faults=40, dry=0, nodes=8)],
+               [D("down", faults=0, dry=0), D("up", faults=0, dry=0, fine=True), D("mix", faults=0, dry=0, fine=True), D("down", faults=40, dry=0, nodes=8), D("up", procs=2, faults=0, dry=0, fine=True, huge=True)],
+               [D("down", n=60, steps=100, procs=6, faults=0, dry=0), D("up", n=40, steps=100, procs=4, faults=0, dry=0, fine=True, huge=True), D("up", n=60, steps=100, procs=6, faults=0, dry=0, fine=True), D("mix", n=60, steps=100, procs=6, faults=0, dry=0, fine=True), D("down", n=60, steps=100, procs=6, faults=40, dry=0, nodes=8)],
                "non-trivial: a fault-free scan of an unlocked, in-bounds group, classified by the exact band of max(cpu%, mem%) (incl. exactly on a threshold) and by the starve / max-age triggers",
-               ["C06:band-fast", "C06:band-slow", "C06:band-none", "C06:band-up", "C06:on-threshold", "C06:starve", "C06:max-age", "C06:taint-band-with-failing-node-write"]),
+               ["C06:band-fast", "C06:band-slow", "C06:band-none", "C06:band-up", "C06:on-threshold", "C06:starve", "C06:max-age", "C06:taint-band-with-failing-node-write", "C06:up-with-memory-total-beyond-int64-headroom"]),
     "C07": ctl(["updown", "forceup", "lag", "all_scale"], ["updown", "updown@v2", "forceup", "lag", "all_scale"],
                [D("up", faults=25, lag=True), D("mix", faults=20, lag=True)],
                [D("up", n=60, steps=100, procs=8, faults=25, lag=True), D("mix", n=60, steps=100, procs=8, faults=20, lag=True)],
@@ -167,7 +167,7 @@ def calc_stage(fam, max_q=None, max_t=None):
 PLANS["C05"] = dict(kind="func", stages=[calc_stage("delta", max_t=150000)],
                     rule="cases: every point of the (nodes, node size, threshold, cpu request, memory request) grid, each at two magnitudes, through the real calcPercentUsage + calcScaleUpDelta "
                          "as the controller chains them; controller level: scale-up scans of histories; non-trivial: a point above the threshold or a scale-up from zero",
-                    required_facts=["C05:above-threshold", "C05:exactly-on-threshold", "C05:memory-bound", "C05:cpu-bound", "C05:from-zero-cached", "C05:from-zero-no-cache", "C05:large-magnitude"],
+                    required_facts=["C05:above-threshold", "C05:exactly-on-threshold", "C05:memory-bound", "C05:cpu-bound", "C05:from-zero-cached", "C05:from-zero-no-cache", "C05:large-magnitude", "C05:memory-total-beyond-int64-headroom"],
                     assumptions=FUNC_ASSUMPTIONS + COMMON_ASSUMPTIONS,
                     also_ctl=ctl(["updown", "agedup"], ["updown", "agedup"],
                                  [D("up", faults=0, dry=0, fine=True), D("mix", faults=0, dry=0, fine=True), D("fromzero", n=12, steps=60, groups=1, faults=0, dry=0)],
